@@ -76,7 +76,7 @@ def gen_model(rng):
                 t = None if rng.random() < 0.5 else typ()
                 tags.append({'name': '%s_t%d' % (name.lower(), i), 'type': t, 'nullable': t is not None and rng.random() < 0.2,
                              'doc': rng.choice([None, 'tag doc'])})
-            ns['unions'].append({'name': name, 'closed': closed, 'parent': parent, 'tags': tags, 'doc': None})
+            ns['unions'].append({'name': name, 'closed': closed, 'parent': parent, 'tags': tags, 'doc': rng.choice([None, 'union doc'])})
             decl.append((nsname, name, 'union'))
         for _ in range(rng.randrange(1, 4)):
             name = pool.pop()
@@ -199,6 +199,8 @@ def render(model, rng=None):
             blocks.append(b)
         for u in ns['unions']:
             b = ['%s %s%s' % ('union_closed' if u['closed'] else 'union', u['name'], (' extends ' + u['parent']) if u['parent'] else '')]
+            if u['doc']:
+                b.append('    "%s"' % u['doc'])
             for t in u['tags']:
                 b.append('    %s%s' % (t['name'], (' ' + _type_text(t['type'], ns['name'], t['nullable'])) if t['type'] else ''))
                 if t['doc']:
@@ -322,6 +324,8 @@ def compare(model, api, problems):
                 continue
             if d.closed != u['closed'] or (d.parent_type.name if d.parent_type else None) != u['parent']:
                 problems.append('%s.%s: closed / parent' % (ns['name'], u['name']))
+            if (d.doc or None) != u['doc']:
+                problems.append('%s.%s: union doc %r' % (ns['name'], u['name'], d.doc))
             want = [{'name': t['name'], 'type': t['type'] or {'k': 'prim', 'name': 'Void', 'params': {}}, 'nullable': t['nullable'],
                      'default': None, 'doc': t['doc']} for t in u['tags']]
             # the documented implicit member: `other` for an open union that does not inherit one
